@@ -299,3 +299,86 @@ Proof.
   apply H in R. vm_compute in R. discriminate.
 Qed.
 Print Assumptions compile_deterministic_full_refuted.
+
+(** ** grouping_extract (Schemac/Extract.v): a contiguous block [B] of sibling statements may be
+    moved into a NEW grouping [g] of the same scope and replaced by [uses g] (no when / refine /
+    augment) — the source-text inverse of uses_inline.  Side conditions (decidable, [clean]): no
+    statement in scope — [B], the later siblings [rest], the groupings of the enclosing scopes —
+    already uses a grouping called [g] (no capture).  The folded text needs one more unit of fuel
+    (the uses is one level of nesting); a successful expansion is never changed by more fuel. *)
+From YV Require Import Schemac.Extract.
+
+Theorem expand_fuel_monotone : forall f f' cx acc ss out, f <= f' ->
+  expand f cx acc ss = Ok out -> expand f' cx acc ss = Ok out.
+Proof. exact expand_fuel_mono_le. Qed.
+Print Assumptions expand_fuel_monotone.
+
+Theorem grouping_extract : forall f fr outer m acc g B rest out,
+  clean_scopes g (fr :: outer) -> clean g B = true -> clean g rest = true ->
+  (expand (S f) (mkCtx ((SGrouping g [] B :: fr) :: outer) m) acc (SUses None g None [] [] :: rest)
+     = Ok out ->
+   expand (S f) (mkCtx (fr :: outer) m) acc (B ++ rest) = Ok out) /\
+  (expand (S f) (mkCtx (fr :: outer) m) acc (B ++ rest) = Ok out ->
+   expand (S (S f)) (mkCtx ((SGrouping g [] B :: fr) :: outer) m) acc
+          (SUses None g None [] [] :: rest) = Ok out).
+Proof. exact grouping_extract_proof. Qed.
+Print Assumptions grouping_extract.
+
+(** the two halves it is made of.  (a) In ONE context: a plain uses of a grouping that has no
+    sub-groupings and is declared in the innermost non-empty scope ([ctx_eqv cg cx]) is the
+    grouping's body written in place. *)
+Theorem uses_unfold : forall f cx acc g body cg rest out,
+  find_grouping cx None g = Some (body, cg) -> ctx_eqv cg cx ->
+  expand (S f) cx acc (SUses None g None [] [] :: rest) = Ok out ->
+  expand (S f) cx acc (body ++ rest) = Ok out.
+Proof. exact uses_unfold_proof. Qed.
+Print Assumptions uses_unfold.
+
+Theorem uses_fold : forall f cx acc g body cg rest out,
+  find_grouping cx None g = Some (body, cg) -> ctx_eqv cg cx ->
+  expand (S f) cx acc (body ++ rest) = Ok out ->
+  expand (S (S f)) cx acc (SUses None g None [] [] :: rest) = Ok out.
+Proof. exact uses_fold_proof. Qed.
+Print Assumptions uses_fold.
+
+(** (b) a grouping nobody uses is invisible (every outcome, not only [Ok]) *)
+Theorem unused_grouping_invisible : forall g gg gb f cx cx',
+  ctx_ins g (SGrouping g gg gb) cx cx' ->
+  forall ss acc, clean g ss = true -> expand f cx acc ss = expand f cx' acc ss.
+Proof. exact expand_unused. Qed.
+Print Assumptions unused_grouping_invisible.
+
+(** satisfiable: scope { grouping h { leaf c; } }, block B = { leaf a; uses h; }, rest = { leaf z; },
+    new grouping "g" *)
+Definition ge_h : stmt := SGrouping [x68] [] [lf [x63]].
+Definition ge_B : list stmt := [lf [x61]; SUses None [x68] None [] []].
+Definition ge_rest : list stmt := [lf [x7a]].
+Definition ge_m : modenv := ME [x6d] [ge_h] [].
+
+Example grouping_extract_applies :
+  clean_scopes [x67] [[ge_h]; []] /\ clean [x67] ge_B = true /\ clean [x67] ge_rest = true /\
+  (exists out,
+     expand 3 (mkCtx [[ge_h]; []] ge_m) [] (ge_B ++ ge_rest) = Ok out /\
+     expand 4 (mkCtx [[SGrouping [x67] [] ge_B; ge_h]; []] ge_m) []
+            (SUses None [x67] None [] [] :: ge_rest) = Ok out /\
+     length out = 3).
+Proof.
+  split; [repeat constructor|]. split; [reflexivity|]. split; [reflexivity|].
+  eexists. split; [vm_compute; reflexivity|]. split; vm_compute; reflexivity.
+Qed.
+
+(** ** submodule_merge, boundary case: the module's data definitions come first, then each
+    submodule's in include order (copyOverIncludes appends) — so moving the LAST top-level
+    definition of the module to the FRONT of the first included submodule (or back) changes
+    nothing at all.  (Moving other definitions permutes the top-level order; not covered.) *)
+Theorem submodule_merge_boundary : forall fuel n pfx grps b d augs sn spfx sgrps b1 saugs subs imps,
+  compile_modset fuel
+    (mkModset (mkModule n pfx grps (b ++ [d]) augs) (mkModule sn spfx sgrps b1 saugs :: subs) imps) =
+  compile_modset fuel
+    (mkModset (mkModule n pfx grps b augs) (mkModule sn spfx sgrps (d :: b1) saugs :: subs) imps).
+Proof.
+  intros. unfold compile_modset, expand_modset, top_ctx, modenv_of, top_frame, all_body, all_augs.
+  cbn [ms_main ms_subs ms_imps m_body m_grps m_augs m_prefix flat_map].
+  rewrite <- !app_assoc. reflexivity.
+Qed.
+Print Assumptions submodule_merge_boundary.
